@@ -30,8 +30,9 @@ import (
 // ---- abstract scenario (same record shape as cfg in spec/Stmt.tla) ---------------------------
 
 type NodeCfg struct {
-	Gpu int `json:"gpu"`
-	Cpu int `json:"cpu"` // milli
+	Gpu  int `json:"gpu"`
+	Cpu  int `json:"cpu"`  // milli
+	Gmem int `json:"gmem"` // memory units of one GPU device; 100 = no nvidia.com/gpu.memory label (the code's default), else MiB
 }
 type QueueCfg struct {
 	Parent string `json:"parent"`
@@ -43,10 +44,10 @@ type JobCfg struct {
 }
 type PodCfg struct {
 	Job    string   `json:"job"`
-	Kind   string   `json:"kind"` // whole | frac
-	Gpu    int      `json:"gpu"`  // whole: number of devices; frac: 0
-	Gq     int      `json:"gq"`   // GPU quota in milli-GPU (whole: 1000*gpu, frac: portion*1000)
-	Mem    int      `json:"mem"`  // frac: GPU memory units (GPU = 100 units); whole: 0
+	Kind   string   `json:"kind"` // whole | frac (gpu-fraction annotation) | mem (gpu-memory annotation)
+	Gpu    int      `json:"gpu"`  // whole: number of devices; else 0
+	Gq     int      `json:"gq"`   // GPU quota of the request in milli-GPU (whole: 1000*gpu, frac: portion*1000, mem: 0)
+	Mem    int      `json:"mem"`  // mem: requested GPU memory (MiB); else 0
 	Cpu    int      `json:"cpu"`  // milli
 	St     string   `json:"st"`   // Running | Pending | Releasing
 	Node   string   `json:"node"`
@@ -101,9 +102,12 @@ func NewWorld(cfg *Cfg, config *conf.SchedulerConfiguration) (*World, error) {
 		if n.Gpu > 0 {
 			rl["nvidia.com/gpu"] = *resource.NewQuantity(int64(n.Gpu), resource.DecimalSI)
 		}
+		labels := map[string]string{"nvidia.com/gpu.count": fmt.Sprint(n.Gpu)}
+		if n.Gmem != 100 {
+			labels["nvidia.com/gpu.memory"] = fmt.Sprint(n.Gmem)
+		}
 		node := &v1.Node{
-			ObjectMeta: metav1.ObjectMeta{Name: name, UID: types.UID(name), CreationTimestamp: metav1.NewTime(epoch),
-				Labels: map[string]string{"nvidia.com/gpu.count": fmt.Sprint(n.Gpu)}},
+			ObjectMeta: metav1.ObjectMeta{Name: name, UID: types.UID(name), CreationTimestamp: metav1.NewTime(epoch), Labels: labels},
 			Status: v1.NodeStatus{Allocatable: rl, Capacity: rl, Phase: v1.NodeRunning,
 				Conditions: []v1.NodeCondition{{Type: v1.NodeReady, Status: v1.ConditionTrue}}},
 		}
@@ -147,9 +151,12 @@ func NewWorld(cfg *Cfg, config *conf.SchedulerConfiguration) (*World, error) {
 		}
 		if p.Kind == "frac" {
 			ann["gpu-fraction"] = fmt.Sprintf("%.2f", float64(p.Gq)/1000.0)
-			if len(p.Groups) > 0 {
-				lab["runai-gpu-group"] = p.Groups[0]
-			}
+		}
+		if p.Kind == "mem" {
+			ann["gpu-memory"] = fmt.Sprint(p.Mem)
+		}
+		if p.Kind != "whole" && len(p.Groups) > 0 {
+			lab["runai-gpu-group"] = p.Groups[0]
 		}
 		pod := &v1.Pod{
 			ObjectMeta: metav1.ObjectMeta{Name: name, Namespace: ns, UID: types.UID(name), Annotations: ann, Labels: lab,
